@@ -21,6 +21,7 @@ from __future__ import annotations
 
 import json
 import math
+import os
 import random
 import shutil
 import sys
@@ -28,7 +29,7 @@ from fractions import Fraction as Fr
 
 import numpy as np
 
-from common import SPEC, Check, MachineryError, tlc, workdir
+from common import SPEC, VERIF, Check, MachineryError, tlc, workdir
 
 SEG = SPEC / "kernels" / "MCSegDist.tla"
 PAIR = SPEC / "algo" / "MCConnPairing.tla"
@@ -276,7 +277,8 @@ def judge(observations, rule="project", *, timeout=1500, chunk=20000):
         try:
             tf = wd / "obs.json"
             tf.write_text(json.dumps([obs_json(o) for o in part]))
-            r = tlc(JUDGE, CFG / f"ConnPairingTrace.{rule}.cfg", workers=8, env={"TRACE_FILE": str(tf)}, timeout=timeout)
+            r = tlc(JUDGE, CFG / f"ConnPairingTrace.{rule}.cfg", workers=8, timeout=timeout,
+                    env={"TRACE_FILE": str(tf), "JAVA_TOOL_OPTIONS": "-Xss64m"})
             if not r.ok or r.distinct != len(part):
                 raise MachineryError(f"judge run failed: ok={r.ok} distinct={r.distinct} expected={len(part)} "
                                      f"{r.error}\n{r.out[-3000:]}")
@@ -294,7 +296,8 @@ def main(tier=None, replay=None):
     from hiten.algorithms.connections import backends as bk
 
     if replay:
-        data = json.load(open(replay))["data"]
+        rp = replay if os.path.exists(replay) else str(VERIF / replay)
+        data = json.load(open(rp))["data"]
         if data["kind"] == "seg":
             if data["site"] == "_refine_pairs_on_section":
                 o = seg_obs_refine(bk, [data["seg"]])[0]
@@ -359,7 +362,16 @@ def main(tier=None, replay=None):
     for ci, c in enumerate(clouds):
         small = len(c["pu"]) + len(c["ps"]) <= 4
         for ri, r2 in enumerate(radii):
-            sel = combos if (not ck.quick and small) else [combos[(ci + 5 * ri) % len(combos)], combos[(3 * ci + ri + 7) % len(combos)]]
+            # budget: quick 2 configurations per (clouds, radius); thorough 4 for small clouds, and for the
+            # larger ones 1 configuration on 2 of the 5 radii (rotating, so every radius/configuration is used)
+            if ck.quick:
+                sel = [combos[(ci + 5 * ri) % len(combos)], combos[(3 * ci + ri + 7) % len(combos)]]
+            elif small:
+                sel = [combos[(ci + 5 * ri + 3 * q) % len(combos)] for q in range(4)]
+            elif (ci + ri) % 5 < 2:
+                sel = [combos[(ci + 5 * ri) % len(combos)]]
+            else:
+                sel = []
             for (li, dv2, bal2) in sel:
                 case = {"pu": c["pu"], "ps": c["ps"], "r2": r2, "dv2": dv2, "bal2": bal2,
                         "au": labels[li]["u"], "bs": labels[li]["s"]}
@@ -469,6 +481,18 @@ def selftest(ck, observations, verdicts, rnd):
                 and len(o["res"]) >= 2 and o["dv2"] > 10000]
     if not good_seg or not good_run:
         raise MachineryError("self-test: no accepted observation to corrupt")
+    def d2(o, i, j):
+        return (o["pu"][i - 1][0] - o["ps"][j - 1][0]) ** 2 + (o["pu"][i - 1][1] - o["ps"][j - 1][1]) ** 2
+
+    def last_is_unique_mutual(o):
+        # choice of the input to corrupt only: dropping a result is a corruption for sure when that pair
+        # is the UNIQUE mutual-nearest pair (ties are not required to be reported)
+        i, j = o["res"][-1]["i"], o["res"][-1]["j"]
+        return (all(d2(o, i, j) < d2(o, i, k) for k in range(1, len(o["ps"]) + 1) if k != j)
+                and all(d2(o, i, j) < d2(o, k, j) for k in range(1, len(o["pu"]) + 1) if k != i))
+    good_run = [o for o in good_run if last_is_unique_mutual(o)]
+    if not good_run:
+        raise MachineryError("self-test: no accepted run with a unique mutual-nearest last pair to corrupt")
     sg = rnd.choice(good_seg)
     rn = json.loads(json.dumps(rnd.choice(good_run)))
     mut = []
